@@ -65,12 +65,11 @@ func (pub Pubkey) GetHexString() string {
 }
 
 func (pub *Pubkey) SetHexString(s string) error {
-	if len(s) < len(PREFIX) || s[:len(PREFIX)] != PREFIX {
-		return fmt.Errorf("arg failed")
+	b, err := decodeHexExact(s, PUBKEY_LENGTH)
+	if err != nil {
+		return err
 	}
-	buf := s[len(PREFIX):]
-
-	return pub.Deserialize(common.Hex2Bytes(buf))
+	return pub.Deserialize(b)
 }
 
 func (pub Pubkey) IsEmpty() bool {
